@@ -1210,17 +1210,19 @@ def evaluate__xml_to_json(self: XPathFunction, context: ta.ContextType = None) \
                         msg = f'object invalid key type {type(key)}'
                         raise self.error('FOJS0006', msg)
 
-                    check_escapes(key)
-
                     escaped_key = e.get('escaped-key', '0').strip()
                     if escaped_key not in BOOLEAN_VALUES:
                         msg = f"{e} has an invalid value for 'escaped-key' attribute"
                         raise self.error('FOJS0006', msg)
+                    elif escaped_key in ('true', '1'):
+                        check_escapes(key)  # a backslash is an ordinary character otherwise
+                        unescaped_key = unescape_json_string(key)
+                    else:
+                        unescaped_key = key
 
                     key = escape_json_string(key, escaped=escaped_key in ('true', '1'))
                     map_chunks.append(f'"{key}":{elem_to_json((e,))}')
 
-                    unescaped_key = unescape_json_string(key)
                     if unescaped_key in map_keys:
                         msg = f"key {key!r} duplication in map after escaping"
                         raise self.error('FOJS0006', msg)
